@@ -73,6 +73,15 @@ def impl_rt(case):
             ess = case["ess"]
             pg = {"n": g["n"], "N": C.g_nodes(g), "D": ess["D"], "U": ess["U"]}
             P = U.build_pdag(pg, lab, case.get("cls", "cpdag"))
+            if C.warm_decide({"g": g, "k": "stale"}, 3):
+                # a CPDAG whose edges still carry what an earlier conversion left on them ('order' / 'label'
+                # attributes, as on a graph assembled from an already converted DAG) is the same CPDAG
+                i = 0
+                for et, gr in P.get_graphs().items():
+                    for a, b in gr.edges:
+                        gr[a][b]["order"] = (5 * i + 2) % (gr.number_of_edges() + 2)
+                        gr[a][b]["label"] = ("compelled", "reversible", "unknown")[i % 3]
+                        i += 1
             before = C.snapshot(P)
             c2 = pdag_to_cpdag(P)
             out["c2"] = U.mixed_canon(c2, lab)
